@@ -2056,9 +2056,15 @@ class CParser:
     def _parse_unified_string_literal(self) -> c_ast.Node:
         tok = self._expect("STRING_LITERAL")
         node = c_ast.Constant("string", tok.value, self._tok_coord(tok))
+        # Collect the pieces and join once: re-building the accumulated string
+        # for every adjacent literal is quadratic in their number.
+        pieces = [tok.value]
         while self._peek_type() == "STRING_LITERAL":
             tok2 = self._advance()
-            node.value = node.value[:-1] + tok2.value[1:]
+            pieces[-1] = pieces[-1][:-1]
+            pieces.append(tok2.value[1:])
+        if len(pieces) > 1:
+            node.value = "".join(pieces)
         return node
 
     # BNF: unified_wstring_literal : WSTRING_LITERAL+
@@ -2067,13 +2073,15 @@ class CParser:
         if tok.type not in _WSTR_LITERAL:
             self._parse_error("Invalid string literal", self._tok_coord(tok))
         node = c_ast.Constant("string", tok.value, self._tok_coord(tok))
+        pieces = [tok.value]
         while self._peek_type() in _WSTR_LITERAL:
             tok2 = self._advance()
             # Drop the closing quote of the accumulated literal and the prefix
             # and opening quote of the next one (the prefix may be L, u, U or u8).
-            node.value = (
-                node.value.rstrip()[:-1] + tok2.value[tok2.value.index('"') + 1 :]
-            )
+            pieces[-1] = pieces[-1].rstrip()[:-1]
+            pieces.append(tok2.value[tok2.value.index('"') + 1 :])
+        if len(pieces) > 1:
+            node.value = "".join(pieces)
         return node
 
     # ------------------------------------------------------------------
